@@ -6,6 +6,14 @@
 // point: a fresh producer stack is started over crashlog's StateAt(p), Initialize(surviving names,
 // nil) is called the way a node does at start-up, and the oracle of DESIGN.md §4 C25 is applied.
 //
+// Pool histories also contain steps "Flush || (puts; Drop of an open database) by a second
+// goroutine": Drop() of a pool database only takes the mutex of the drop queue and is legal while a
+// Flush runs. The harness owns the schedule through gate_test.go (the k-th operation of the flush on
+// the underlying store of another database waits until the second goroutine is done). A drop that
+// overlaps Flush(N) may take effect at N or at N+1 (the calls are concurrent); independently of
+// the snapshots, every database whose Drop() returned before Flush(N) was CALLED (and that was
+// not opened again) must be absent or empty whenever a restart reports N.
+//
 // Raw contents are compared INCLUDING the marker key (flush-id key): the snapshot S_N taken when
 // Flush(N) returned contains the clean mark of N in every store, and so must the restarted stores.
 package c25
@@ -53,7 +61,7 @@ const (
 	variantFlagged = "flagged"
 )
 
-func newStack(variant string, backend *crashlog.Producer) stack {
+func newStack(variant string, backend kvdb.IterableDBProducer) stack {
 	if variant == variantPool {
 		return flushable.NewSyncedPool(backend, flushIDKey)
 	}
@@ -69,6 +77,12 @@ type flushInfo struct {
 	firstMark int            // index of the first marker record written by this flush (-1: none)
 	lastMark  int            // index of the last marker record written by this flush
 	markedDBs int            // number of distinct databases that got marker records
+	// mustBeAbsent: names whose Drop() had returned before this Flush was CALLED and that were not
+	// opened again since (model of the caller, independent of what the stack did). A Drop() that was
+	// issued by another goroutine while this Flush was running is not in the set of this flush (the
+	// two calls are concurrent, either order is a legal outcome) but in the set of the next one.
+	mustBeAbsent map[string]bool
+	racingDrop   string // name dropped by another goroutine while this flush was running ("" = none)
 }
 
 type history struct {
@@ -81,7 +95,35 @@ type history struct {
 	reopens         int
 	deferredBatches int
 	bigPuts         int
+	// drops issued by a second goroutine
+	raceSteps      int // generated "Flush || (puts; Drop)" steps
+	raceInDropLoop int // ... that landed inside the close-and-drop loop of the flush
+	raceInMarks    int // ... that landed between marker/data writes of the flush
+	raceAfter      int // ... whose gate did not fire: the drop was issued right after the flush
+	raceBefore     int // ... drawn to be issued right before the flush
+	raceWithPuts   int // ... with puts of the second goroutine before its Drop
+	flushAfterRace int // completed flushes of the same session after a racing drop
 }
+
+// genOpts selects the generated history space of a unit.
+type genOpts struct {
+	poolOnly bool     // only the pool variant
+	ops      []string // operation alphabet (with weights by repetition)
+}
+
+// Operation alphabets (weights by repetition). rapid.SampledFrom favours the ends of the list; the
+// new step sits in the middle so that the distribution of the other operations stays as measured before.
+var (
+	mainOps = []string{
+		"put", "put", "put", "put", "del", "batch", "batch", "open", "open", "reopen", "drop", "raceflush", "flush", "flush", "flush",
+		"batchPrepare", "batchWrite", "batchWrite", "bigput",
+	}
+	raceOps = []string{
+		"put", "put", "put", "put", "del", "batch", "batch", "open", "open", "reopen", "drop", "drop",
+		"raceflush", "raceflush", "raceflush", "raceflush", "flush", "flush", "flush",
+		"batchPrepare", "batchWrite", "batchWrite", "bigput",
+	}
+)
 
 func (h *history) tracef(format string, a ...interface{}) {
 	h.trace = append(h.trace, fmt.Sprintf("@%d ", h.log.Len())+fmt.Sprintf(format, a...))
@@ -116,12 +158,16 @@ func sortedNames(m map[string]kvdb.Store) []string {
 // runHistory generates and executes one history (unexpected errors of the stack while the
 // history is executed are reported through t.Fatalf). Trace lines carry the log position reached
 // after the step.
-func runHistory(t *rapid.T) *history {
+func runHistory(t *rapid.T, opts genOpts) *history {
 	h := &history{
-		variant: rapid.SampledFrom([]string{variantPool, variantFlagged}).Draw(t, "variant"),
+		variant: variantPool,
 		log:     crashlog.NewLog(),
 	}
-	backend := crashlog.NewProducer(h.log)
+	if !opts.poolOnly {
+		h.variant = rapid.SampledFrom([]string{variantPool, variantFlagged}).Draw(t, "variant")
+	}
+	disk := crashlog.NewProducer(h.log)
+	backend := newGated(disk)
 	nSessions := rapid.IntRange(1, 3).Draw(t, "sessions")
 	flushSeq := 0
 
@@ -137,6 +183,11 @@ func runHistory(t *rapid.T) *history {
 		h.sessions++
 		handles := map[string]kvdb.Store{}
 		pendingDrop := map[string]bool{} // pool: drop is queued until the next flush
+		// absent: names dropped in this session (Drop() returned) and not opened again. Starts empty in
+		// every session: a drop that was only queued when the previous session ended is lost like any
+		// other unflushed change, and Initialize registers every surviving database again.
+		absent := map[string]bool{}
+		racedInSession := false
 
 		open := func(name string) {
 			db, err := stk.OpenDB(name)
@@ -144,19 +195,26 @@ func runHistory(t *rapid.T) *history {
 				t.Fatalf("OpenDB(%s) failed: %v", name, err)
 			}
 			handles[name] = db
+			delete(absent, name)
 			h.tracef("open %s", name)
 		}
 		doFlush := func() {
 			flushSeq++
 			id := []byte{byte(flushSeq)}
 			id = append(id, rapid.SliceOfN(rapid.SampledFrom([]byte{0x00, 0xde, 0xff}), 0, 2).Draw(t, "idtail")...)
-			fi := flushInfo{id: id, start: h.log.Len(), firstMark: -1, lastMark: -1}
+			fi := flushInfo{id: id, start: h.log.Len(), firstMark: -1, lastMark: -1, mustBeAbsent: map[string]bool{}}
+			for n := range absent {
+				fi.mustBeAbsent[n] = true
+			}
 			h.tracef("Flush(%x) begins", id)
 			if err := stk.Flush(id); err != nil {
 				t.Fatalf("Flush(%x) failed: %v", id, err)
 			}
 			fi.end = h.log.Len()
-			fi.snap = backend.State()
+			fi.snap = disk.State()
+			if racedInSession {
+				h.flushAfterRace++
+			}
 			marked := map[string]bool{}
 			for i, r := range h.log.Records()[fi.start:fi.end] {
 				if r.Kind == crashlog.Put && bytes.Equal(r.Key, flushIDKey) {
@@ -194,10 +252,12 @@ func runHistory(t *rapid.T) *history {
 		pendingDescr := map[string][]string{}
 		nOps := rapid.IntRange(3, 28).Draw(t, "ops")
 		for i := 0; i < nOps; i++ {
-			op := rapid.SampledFrom([]string{
-				"put", "put", "put", "put", "del", "batch", "batch", "open", "open", "reopen", "drop", "flush", "flush", "flush",
-				"batchPrepare", "batchWrite", "batchWrite", "bigput",
-			}).Draw(t, "op")
+			op := rapid.SampledFrom(opts.ops).Draw(t, "op")
+			if op == "raceflush" && h.variant != variantPool {
+				// only the pool allows Drop() while Flush runs (separate mutex of the drop queue);
+				// the dirty-flag producer executes a drop at once, under the caller's own ordering
+				op = "flush"
+			}
 			opened := sortedNames(handles)
 			if len(opened) == 0 && op != "flush" {
 				op = "open"
@@ -311,8 +371,131 @@ func runHistory(t *rapid.T) *history {
 				if h.variant == variantPool {
 					pendingDrop[name] = true
 				}
+				absent[name] = true
 				h.drops++
 				h.tracef("drop %s", name)
+			case "raceflush":
+				// Flush(N) || (puts on x; Close+Drop of x) with x an open pool database. Drop() of a pool
+				// database only enqueues the name under the queue's own mutex and is legal while a Flush
+				// runs. The harness owns the schedule: the k-th operation that the flush performs on the
+				// underlying store of ANOTHER database (Close/Drop of a queued database, marker Put, data
+				// batch) blocks on a gate until the second goroutine has finished.
+				x := rapid.SampledFrom(opened).Draw(t, "raceDB")
+				type kv struct{ k, v []byte }
+				puts := make([]kv, rapid.IntRange(0, 2).Draw(t, "racePuts"))
+				for j := range puts {
+					puts[j] = kv{genKey(t), genVal(t)}
+				}
+				hx := handles[x]
+				var actionErr error
+				action := func(where string) {
+					for _, e := range puts {
+						if err := hx.Put(e.k, e.v); err != nil && actionErr == nil {
+							actionErr = fmt.Errorf("Put(%s) by the second goroutine failed: %v", x, err)
+						}
+						h.tracef("[%s] put %s %x=%x", where, x, e.k, e.v)
+					}
+					_ = hx.Close()
+					hx.Drop()
+					h.tracef("[%s] drop %s", where, x)
+				}
+				dropped := func() {
+					delete(pendingBatch, x)
+					delete(pendingDescr, x)
+					delete(handles, x)
+					pendingDrop[x] = true
+					absent[x] = true
+					h.drops++
+					h.raceSteps++
+					if len(puts) > 0 {
+						h.raceWithPuts++
+					}
+					racedInSession = true
+				}
+				switch rapid.SampledFrom([]string{"during", "during", "during", "during", "before", "after"}).Draw(t, "raceLanding") {
+				case "before":
+					action("before the flush")
+					dropped()
+					h.raceBefore++
+					doFlush()
+				case "after":
+					doFlush()
+					action("after the flush")
+					dropped()
+					h.raceAfter++
+				default:
+					// the close-and-drop loop only touches queued databases whose store exists; optionally
+					// queue another one first, in the ordinary sequential way
+					onDisk := map[string]bool{}
+					for _, n := range disk.Names() {
+						onDisk[n] = true
+					}
+					queued := 0
+					for n := range pendingDrop {
+						if onDisk[n] {
+							queued++
+						}
+					}
+					var others []string
+					for _, n := range opened {
+						if n != x && onDisk[n] {
+							others = append(others, n)
+						}
+					}
+					if len(others) > 0 && rapid.IntRange(0, 3).Draw(t, "queueAnotherFirst") > queued {
+						y := rapid.SampledFrom(others).Draw(t, "queuedDB")
+						delete(pendingBatch, y)
+						delete(pendingDescr, y)
+						_ = handles[y].Close()
+						handles[y].Drop()
+						delete(handles, y)
+						pendingDrop[y] = true
+						absent[y] = true
+						h.drops++
+						queued++
+						h.tracef("drop %s", y)
+					}
+					live := 0
+					for _, n := range disk.Names() {
+						if !pendingDrop[n] && n != x {
+							live++
+						}
+					}
+					// events on other stores: 2 per queued database (Close, Drop), then about 3 per live one
+					k := 0
+					if queued > 0 && rapid.IntRange(0, 3).Draw(t, "raceInLoop") != 0 {
+						k = rapid.IntRange(0, 2*queued-1).Draw(t, "raceEvent")
+					} else {
+						k = rapid.IntRange(0, 2*queued+3*live+1).Draw(t, "raceEvent")
+					}
+					afterOp := rapid.Bool().Draw(t, "raceAfterOp")
+					backend.arm(x, k, afterOp, func(ev string) {
+						done := make(chan struct{})
+						go func() {
+							defer close(done)
+							action("second goroutine, flush is at: " + ev)
+						}()
+						<-done
+					})
+					doFlush()
+					ev, kind := backend.disarm()
+					if ev != "" {
+						h.flushes[len(h.flushes)-1].racingDrop = x
+					}
+					switch {
+					case ev == "":
+						action("after the flush (gate not reached)")
+						h.raceAfter++
+					case kind == "close" || kind == "drop":
+						h.raceInDropLoop++
+					default:
+						h.raceInMarks++
+					}
+					dropped()
+				}
+				if actionErr != nil {
+					t.Fatalf("%v\n%s", actionErr, h.describe(-1))
+				}
 			case "flush":
 				doFlush()
 			}
@@ -368,10 +551,13 @@ func (h *history) flushOf(ret []byte) int {
 	return -1
 }
 
-var st = stats.New("crashpoints")
+var (
+	st     = stats.New("crashpoints")
+	stRace = stats.New("droprace")
+)
 
 // checkAllPrefixes applies the oracle at every crash point of the history.
-func checkAllPrefixes(t *rapid.T, h *history) {
+func checkAllPrefixes(t *rapid.T, h *history, st *stats.Collector) {
 	n := h.log.Len()
 	hkey := stats.Hash(h.variant, h.log.Records())
 	anyNontrivial := false
@@ -441,6 +627,12 @@ func checkAllPrefixes(t *rapid.T, h *history) {
 			}
 			f := h.flushes[fi]
 			for _, name := range names {
+				// independent of the snapshot: the caller's own record of what it had dropped
+				if f.mustBeAbsent[name] && len(raw[name]) != 0 {
+					t.Fatalf("C25: restart reports flush %x without error, but database %q, whose Drop() had returned before that "+
+						"Flush was called (and which was not opened again), still exists and holds %s\n%s",
+						f.id, name, crashlog.FormatDB(raw[name]), h.describe(p))
+				}
 				want, known := f.snap[name]
 				if !known {
 					if len(raw[name]) != 0 {
@@ -456,6 +648,18 @@ func checkAllPrefixes(t *rapid.T, h *history) {
 			}
 			if len(names) < len(f.snap) {
 				classes = append(classes, "accepted_with_dropped_db_absent")
+			}
+			if len(f.mustBeAbsent) > 0 {
+				classes = append(classes, "accepted_flush_with_dropped_names")
+			}
+			if f.racingDrop != "" {
+				classes = append(classes, "accepted_flush_overlapped_by_drop")
+				if _, ok := raw[f.racingDrop]; ok {
+					classes = append(classes, "accepted_flush_overlapped_by_drop_db_still_present")
+				}
+			}
+			if fi > 0 && h.flushes[fi-1].racingDrop != "" && f.mustBeAbsent[h.flushes[fi-1].racingDrop] {
+				classes = append(classes, "accepted_first_flush_after_overlapping_drop")
 			}
 			if atCompleted >= 0 && len(names) >= 1 && atCompleted != fi {
 				t.Fatalf("C25 sanity: restart exactly after completed Flush(%x) reports flush %x\n%s",
@@ -493,6 +697,23 @@ func checkAllPrefixes(t *rapid.T, h *history) {
 	if len(h.flushes) >= 2 {
 		st.Class("histories_2plus_flushes", 1)
 	}
+	if h.raceSteps > 0 {
+		st.Class("histories_with_flush_and_drop_step", 1)
+		st.Class("drop_steps_before_flush", int64(h.raceBefore))
+		st.Class("drop_steps_inside_close_and_drop_loop", int64(h.raceInDropLoop))
+		st.Class("drop_steps_inside_marks_or_data_phase", int64(h.raceInMarks))
+		st.Class("drop_steps_after_flush", int64(h.raceAfter))
+		st.Class("drop_steps_with_puts_of_second_goroutine", int64(h.raceWithPuts))
+	}
+	if h.raceInDropLoop+h.raceInMarks > 0 {
+		st.Class("histories_with_drop_overlapping_flush", 1)
+		if h.flushAfterRace > 0 {
+			st.Class("histories_with_flush_after_overlapping_drop", 1)
+		}
+	}
+	if h.raceInDropLoop > 0 {
+		st.Class("histories_with_drop_inside_close_and_drop_loop", 1)
+	}
 	st.Class("log_records", int64(n))
 }
 
@@ -501,7 +722,20 @@ func TestC25CrashPoints(t *testing.T) {
 	st.Exhaustive(true)
 	st.Set("exhaustive_scope", "every prefix of the durable-operation log of each generated history; the histories themselves are sampled")
 	rapid.Check(t, func(t *rapid.T) {
-		h := runHistory(t)
-		checkAllPrefixes(t, h)
+		h := runHistory(t, genOpts{ops: mainOps})
+		checkAllPrefixes(t, h, st)
+	})
+}
+
+// TestC25DropRacesFlush: pool histories in which Drop() of a pool database is frequently issued by
+// a second goroutine while Flush is running (at a drawn operation of the flush on the store of
+// another database), right before or right after it; same oracle at every crash point.
+func TestC25DropRacesFlush(t *testing.T) {
+	stRace.Exhaustive(true)
+	stRace.Set("exhaustive_scope", "every prefix of the durable-operation log of each generated history; the histories (and the point "+
+		"of the flush at which the second goroutine runs) are sampled")
+	rapid.Check(t, func(t *rapid.T) {
+		h := runHistory(t, genOpts{poolOnly: true, ops: raceOps})
+		checkAllPrefixes(t, h, stRace)
 	})
 }
